@@ -336,3 +336,34 @@ def jobs(tier, seed):
                     jobs.append({"harness": "segments", "params": {"cfg": JS, "segments": segs, "tail": "y\n", "name": "".join(lay) + "+line"},
                                  "weight": 2 + run, "cpu_cap": 1200, "wall_cap": 1800})
     return jobs
+
+
+def thorough_extra(seed):
+    jobs = []
+    jobs.append({"harness": "normalize", "params": {"k": 4}, "weight": 30, "cpu_cap": 9000, "wall_cap": 10000})
+    NOCR = {"exclude": "\r\0"}
+    spec = {n: dict(NOCR) for n in "abcdefgh"}
+    for sc in ([{"v": "a"}, "<NL>", {"v": "b"}, "<NL>"], ["- ", {"v": "a"}, "<NL>", "<NL>", "  ", "b", "<NL>"],
+               ["[r]: /u", "<NL>", "'", {"v": "a"}, "<NL>", "t'", "<NL>", "<NL>", "[r]", "<NL>"], ["a|b", "<NL>", "-|-", "<NL>", {"v": "a"}, "|2", "<NL>"]):
+        jobs.append({"harness": "line_endings", "params": {"cfg": JS, "scaffold": sc, "nlines": sc.count("<NL>"), "spec": spec}, "weight": 20,
+                     "cpu_cap": 6000, "wall_cap": 7200, "path_cap": 90})
+    tspec = {n: {"alphabet": TABALPHA} for n in "abcdefgh"}
+    for first in TABALPHA:
+        sp = {k_: dict(v) for k_, v in tspec.items()}
+        sp["a"] = {"alphabet": first}
+        jobs.append({"harness": "leading_tabs", "params": {"cfg": JS, "scaffold": free_doc(4, "x\n"), "spec": sp, "name": f"tabs4-{first!r}"}, "weight": 20,
+                     "cpu_cap": 6000, "wall_cap": 7200})
+        jobs.append({"harness": "leading_tabs", "params": {"cfg": JS, "scaffold": free_doc(3, "\n"), "spec": sp, "name": f"tabs3nl-{first!r}"}, "weight": 8,
+                     "cpu_cap": 3000, "wall_cap": 4000})
+    for lay in LAYOUTS:
+        for run in (1, 2, 3):
+            if run == 3 and len(lay) == 3:
+                continue
+            for indent in (0, 2):
+                segs = [{"marker": m, "run": run, "indent": indent if i == 0 else 0} for i, m in enumerate(lay)]
+                if lay in LAYOUTS[:10] and run < 3 and indent == 0:
+                    jobs.append({"harness": "segments", "params": {"cfg": JS, "segments": segs, "tail": "y\n", "name": "".join(lay) + "+line"}, "weight": 3,
+                                 "cpu_cap": 3000, "wall_cap": 4000})
+                else:
+                    jobs.append({"harness": "segments", "params": {"cfg": JS, "segments": segs, "name": "".join(lay)}, "weight": 3, "cpu_cap": 3000, "wall_cap": 4000})
+    return jobs
